@@ -240,7 +240,7 @@ func main() {
 		// interprocedural view — same-package helpers that no rule names are inlined (an/inline.go),
 		// so a rule whose sites moved into an extracted helper is decided on the code the helper
 		// contains.  An obligation is discharged when it is discharged in either view.
-		if os.Getenv("VCHECK_NOINLINE") == "" && ctx.HasNewViolations() {
+		if os.Getenv("VCHECK_NOINLINE") == "" && (ctx.HasNewViolations() || *tier == "thorough") {
 			prog.DisableInline = false
 			prog.ResetFns()
 			ctx2 := &an.Ctx{P: prog, Prop: *prop, Tier: *tier, Start: start, VerifDir: *verif, Extra: map[string]any{}}
